@@ -681,7 +681,9 @@ def view_cost(c, n):
     """Props/C17V: the seeking loops of the streaming views (Model/ViewCost.lean). On the real code a counting BytesIO
     counts the stream calls of GlobalLTransactionView.num_vout_offset, PSETView._hash_to and PSBTView._skip_scope on
     valid PSBT / PSET bytes and on the hostile psbt_targeted / pset_targeted mutants. REQUIRED (violation otherwise):
-    embit's count stays inside the PROVED bound (9(|b|/41+1)+4, 2((|b|-pos)/32+1), 7((|b|-pos)/2+1)). Correspondence:
+    embit's count stays inside the PROVED bound (9(|b|/41+1)+4, 2((|b|-pos)/32+1), 7((|b|-pos)/2+1); round 7:
+    GlobalLTransactionView.vin(i) up to its input parser 9·min(i,|b|/41+1)+4, PSBTView.seek_to_scope(n)
+    min(8(|b|-first+1)+1, (7(|b|-first)+9·min(n,|b|-first+1)+9)/2)). Correspondence:
     same value / same exception-or-not as the instrumented model (whose own counts are checked against the bound)."""
     import io, hashlib
     from embit.psbtview import PSBTView
@@ -698,7 +700,7 @@ def view_cost(c, n):
             self.n += 1
             return super().seek(*a)
 
-    def run_one(kind, b, call, line, bound):
+    def run_one(kind, b, call, line, bound, scopes_bound=None):
         s = CS(b)
         try:
             val = call(s)
@@ -715,7 +717,7 @@ def view_cost(c, n):
 
         def canon(o, calls=s.n):
             t = o.split(" ")
-            if len(t) != 4 or t[0] != "ok":
+            if len(t) not in (4, 5) or t[0] != "ok":
                 return o
             try:
                 ms = int(t[2])
@@ -724,6 +726,10 @@ def view_cost(c, n):
             if ms > bound:
                 return "model-exceeds-proved-bound " + o
             c.tally("cost.%s:embit-calls-%s-model-steps" % (kind, "le" if calls <= ms else "gt"))
+            if len(t) == 5:
+                # c17.seekscope: calls of _skip_scope — proved <= min(n, |b| - first + 1)
+                if scopes_bound is not None and int(t[4]) > scopes_bound:
+                    return "model-exceeds-proved-bound " + o
             return "ok * * " + t[3]
         c.expect(line, "ok * * %s" % val, rec, proven=False, canon=canon)
 
@@ -750,6 +756,35 @@ def view_cost(c, n):
             return str(pos + v._skip_scope())
         return f
 
+    def lvin(off, i):
+        # GlobalLTransactionView.vin(i) up to (not including) LTransactionInput.read_from: the parser is replaced by a
+        # stub that reports where it would start (tell() is not counted)
+        from unittest import mock
+        import embit.liquid.psetview as pv
+
+        class Stub:
+            @staticmethod
+            def read_from(stream, *a, **k):
+                return stream.tell()
+
+        def f(s):
+            with mock.patch.object(pv, "LTransactionInput", Stub):
+                return str(GlobalLTransactionView(s, off).vin(i))
+        return f
+
+    def seekscope(first, n):
+        def f(s):
+            v = PSBTView.__new__(PSBTView)
+            v.stream = s
+            v.first_scope = first
+            v.num_inputs = n          # the range test of seek_to_scope passes: the loop is what is measured
+            v.num_outputs = 0
+            r = v.seek_to_scope(n)
+            if r != s.tell():
+                return "offset-differs-from-position %d %d" % (r, s.tell())
+            return str(r)
+        return f
+
     def tx_off(b):
         # magic, key 01 00, compact length of the global transaction
         if len(b) > 7 and b[5:7] == b"\x01\x00":
@@ -774,6 +809,14 @@ def view_cost(c, n):
             run_one("view.lnvo", b, nvo(off), "c17.lnvo %d %s" % (off, hx(b)), 9 * (L // 41 + 1) + 4)
         for pos in sorted({5, c.rng.randrange(0, L + 3)}):
             run_one("view.skipscope", b, skipscope(pos), "c17.skipscope %d %s" % (pos, hx(b)), 7 * (max(0, L - pos) // 2 + 1))
+        off = tx_off(b)
+        for i in sorted({0, c.rng.randrange(0, 4), c.rng.choice(BIGN)}):
+            run_one("view.lvin", b, lvin(off, i), "c17.lvin %d %d %s" % (off, i, hx(b)), 9 * min(i, L // 41 + 1) + 4)
+        for first in sorted({5, c.rng.randrange(0, L + 3)}):
+            R = max(0, L - first)
+            for nn in sorted({c.rng.randrange(0, 6), c.rng.choice(BIGN)}):
+                run_one("view.seekscope", b, seekscope(first, nn), "c17.seekscope %d %d %s" % (first, nn, hx(b)),
+                        min(8 * (R + 1) + 1, (7 * R + 9 * min(nn, R + 1) + 9) // 2), scopes_bound=min(nn, R + 1))
         pos = c.rng.randrange(0, L + 3)
         for l in (c.rng.choice([0, 31, 32, 33, 64, 65]), c.rng.randrange(0, 2 * L + 2), c.rng.choice(BIGN)):
             run_one("view.hashto", b, hashto(l, pos), "c17.hashto %d %d %s" % (l, pos, hx(b)), 2 * (max(0, L - pos) // 32 + 1))
